@@ -645,6 +645,15 @@ class HTTPResponse(BaseHTTPResponse):
         if not self._pool or not self._connection:
             return None
 
+        # A connection whose response body has not been read to its end still
+        # has the rest of that body on the wire: it must not be reused.
+        if (
+            self._original_response is not None
+            and not self._original_response.isclosed()
+            and self.length_remaining != 0
+        ):
+            self._connection.close()
+
         self._pool._put_conn(self._connection)
         self._connection = None
 
